@@ -417,6 +417,17 @@ fn history(_ctx: &Ctx, case: u64, r: &mut Rng, rep: &mut Report) {
                     }
                 }
             }
+            10 if h.cfg.version == 2 && probe.is_none() => {
+                // compression switched on/off mid-history: later repacks merge compressed and uncompressed blobs
+                let lvl = *r.pick(&[0, 0, 1, 3, -3]);
+                let big = bytesize::ByteSize(r.range(2000, 40_000));
+                let cmd = Cmd::ApplyConfig { opts: rustic_core::ConfigOptions::default().set_compression(lvl).set_datapack_size(big).set_treepack_size(big) };
+                log_desc.push(cmd.name());
+                match cmd.run(&h.env) {
+                    Ok(Ok(())) => rep.count("compression_or_pack_size_changes", 1),
+                    other => rep.violation(case, "config-change-failed", format!("{other:?}"), detail(&log_desc)),
+                }
+            }
             _ => {
                 // prune
                 let is_probe = probe.is_some();
@@ -585,7 +596,7 @@ pub fn run(ctx: &Ctx) -> (Report, Meta) {
     });
     let meta = Meta {
         level: "exploration",
-        rule: "case = history of 4-12 steps over {edit+backup, forget a random subset, prune with generated options (limits, keep-pack, keep-delete 0/1h, instant-delete, fast-repack, repack-all, repack-uncompressed, no-resize, repack-cacheable-only), plant an anomaly through the raw index writer (duplicated index file, pack in two index files, pack both used and marked, unreferenced packs of an interrupted backup, marked packs aged to either side of keep-delete, duplicate blobs across packs, tree/data blob id collision), backup through a handle with a stale index}. After EVERY step: every snapshot reads back equal to the model it was taken from and every reachable blob is present per an independent raw parse; after every prune: check(read_data) clean and, from the storage event log, no pack removed unless it was marked in the index the prune read and its keep-delete time had passed (or instant-delete was requested). distinct_nontrivial = distinct (prune mode, option flags, effect: repacked/deleted/marked)".to_string(),
+        rule: "case = history of 4-12 steps over {edit+backup, forget a random subset, change of compression level and pack sizes (v2), prune with generated options (limits, keep-pack, keep-delete 0/1h, instant-delete, fast-repack, repack-all, repack-uncompressed, no-resize, repack-cacheable-only), plant an anomaly through the raw index writer (duplicated index file, pack in two index files, pack both used and marked, unreferenced packs of an interrupted backup, marked packs aged to either side of keep-delete, duplicate blobs across packs, tree/data blob id collision), backup through a handle with a stale index}. After EVERY step: every snapshot reads back equal to the model it was taken from and every reachable blob is present per an independent raw parse; after every prune: check(read_data) clean and, from the storage event log, no pack removed unless it was marked in the index the prune read and its keep-delete time had passed (or instant-delete was requested). distinct_nontrivial = distinct (prune mode, option flags, effect: repacked/deleted/marked)".to_string(),
         exhaustive: false,
         assumptions: vec![
             "keep-delete is exercised with 0 h (delete at the next prune) and 1 h (never within a history) plus time-travelled marks 2 min before / 10 min after the 1 h boundary; prune time is bracketed by the harness clock (+2 s slack)".to_string(),
